@@ -1087,6 +1087,8 @@ class Server:
         self.service_records = {}  # Service records maps, by record handle
         self.channel = None
         self.current_response = None  # Current response data, used for continuations
+        # Response data kept for continuations, for the channels other than the current one
+        self.current_responses: dict[l2cap.ClassicChannel, Any] = {}
 
     def register(self, l2cap_channel_manager: l2cap.ChannelManager) -> None:
         l2cap_channel_manager.create_classic_server(
@@ -1114,8 +1116,32 @@ class Server:
         return matching_services
 
     def on_connection(self, channel):
+        # Each client has its own channel and its own continuation state
+        channel.sink = lambda pdu: self.on_channel_pdu(channel, pdu)
+        channel.once(
+            channel.EVENT_CLOSE, lambda: self.on_channel_close(channel)
+        )
+        self.select_channel(channel)
+
+    def select_channel(self, channel):
+        # The request handlers work on self.channel and self.current_response:
+        # make them those of the client being served
+        if channel is self.channel:
+            return
+        if self.channel is not None and self.current_response is not None:
+            self.current_responses[self.channel] = self.current_response
         self.channel = channel
-        self.channel.sink = self.on_pdu
+        self.current_response = self.current_responses.pop(channel, None)
+
+    def on_channel_pdu(self, channel, pdu):
+        self.select_channel(channel)
+        self.on_pdu(pdu)
+
+    def on_channel_close(self, channel):
+        self.current_responses.pop(channel, None)
+        if channel is self.channel:
+            self.channel = None
+            self.current_response = None
 
     def on_pdu(self, pdu):
         try:
